@@ -103,7 +103,7 @@ def parse_svg(text):
     return ev, circles, supports
 
 
-def finish_events(ev, circles, supports):
+def finish_events(ev, circles, supports, kinds=None):
     """node circles and support groups come out of Go maps in arbitrary orders: the circles are kept in their
     observed order (it becomes the model's node order) and the support groups are put in that order"""
     out = list(ev)
@@ -117,7 +117,11 @@ def finish_events(ev, circles, supports):
         ks = pos.get((x, y))
         if not ks:
             return "a support symbol at (%d, %d) where no node is drawn" % (x, y)
-        used.append((ks.pop(0), kind, x, y))
+        # (several nodes may be drawn at one pixel, and the support groups come out of a Go map in any order: among the circles at that
+        # pixel the symbol goes to one whose support is of that kind when there is one - which node holds which support at one pixel
+        # is not something the document can tell)
+        pick = next((j for j, k in enumerate(ks) if kinds and kinds.get(circles[k][0]) == kind), 0)
+        used.append((ks.pop(pick), kind, x, y))
     for k, kind, x, y in sorted(used):
         out.append(("EOpen", "support"))
         if kind:
@@ -337,7 +341,8 @@ def run(ctx):
                 ctx.violation("plot is not geometrically faithful: " + "; ".join(fails[:3]), dict(rep, failures=fails))
             concrete += 1
             continue
-        events = finish_events(*parsed)
+        known_kind = {(True, True, True): 1, (True, True, False): 2, (False, True, False): 3}
+        events = finish_events(*parsed, kinds={n_["ID"]: known_kind.get((n_["Dx"], n_["Dy"], n_["Rz"]), 0) for n_ in o["Nodes"]})
         if not exact_scaling(o, Fr(scale)):
             continue   # scaled coordinates within 1e-6 of an integer without being one: truncation is the float unit's call, not compared with the exact model
         if isinstance(events, str):
